@@ -90,4 +90,45 @@ CLAIMS['C02'] = {
     'note': COMMON_NOTE + "rustc layout modelled; extern types assumed to have their declared layout; by-value void excluded (pyxis 0 vs c_void 1).",
     'technique': 'Lean 4 proof (repr(C) size/alignment lemma, lcm bound, table decide) + differential correspondence + layout oracle',
 }
+CLAIMS['C11'] = {
+    'text': ("Theorems: resolve_spec_partial – for every registry, module path, use list and name, pyxis's lookup equals the five-step "
+             "precedence of the property (last type import, built-in, same module, module imports in order, none), under the guard "
+             "that the module's own path is not itself a type path; own_path_is_type_refuted – without the guard the statement is false "
+             "(kernel-checked witness, also a known finding replayed on the implementation); lookup_sites/scope_is_own_then_uses – every "
+             "field, enum base, parameter, return type and extern value goes through that rule with scope own::uses; emitted_reference, "
+             "layout_uses_binding, binding_exists. Correspondence plus an oracle that recomputes the binding from the input for generated "
+             "clash-heavy module sets and compares emitted path and laid-out size."),
+    'note': COMMON_NOTE + "guard: a module path that is also a type path (a.pyxis defining b next to a/b.pyxis) hijacks the lookup – open known finding.",
+    'technique': 'Lean 4 proof (case analysis of the scope partition; decide-d counterexample for the unguarded claim) + differential correspondence + binding oracle',
+}
+CLAIMS['C14'] = {
+    'text': ("Theorems: files_per_module/file_name – exactly one file per non-root module at the same relative path with .rs appended; "
+             "file_content – module docs, rust prologues in source order, the module's items sorted by path, accessors sorted by name, rust "
+             "epilogues; other_backends_excluded; only_defined_emitted – built-in and extern types emit nothing; defPaths_nodup – each "
+             "definition path listed once; duplicate_definition_rejected – any repeated declared name (type, enum, extern type) makes "
+             "add_module fail; vftable_clash_rejected/vftable_item_path – one generated <T>Vftable per block in the same module and a "
+             "colliding user item is an error. Correspondence plus an oracle on file set, per-file item multiset, accessor set and "
+             "prologue/epilogue placement, with a collision stream that must be rejected."),
+    'note': COMMON_NOTE + "file system, glob and Path handling outside the model (the harness drives pyxis::build on real directories); prologue text compared up to whitespace.",
+    'technique': 'Lean 4 proof (fold invariants over add_module; emitter unfolding) + differential correspondence + file/item oracle',
+}
+CLAIMS['C15'] = {
+    'text': ("Theorems: type_singleton/enum_singleton/extern_value_address – the recorded address is the declared non-negative number; "
+             "struct_getter_emitted/enum_getter_emitted/extern_accessor_emitted – the accessor of the right shape (one indirection for "
+             "struct singletons, none for enum singletons and extern values) with that address, name, visibility and resolved type is "
+             "emitted, and none without the attribute; extern_without_address_rejected; extern_value_type; getter_semantics – the modelled "
+             "run-time meaning of the three shapes (None iff the cell at A is null, else the pointer stored there; the value at A; the "
+             "address A). Correspondence plus an oracle on every emitted accessor, with missing/negative-address streams."),
+    'note': COMMON_NOTE + "the run-time meaning of the shapes is a three-line model of Rust semantics, not verified against rustc in the quick tier.",
+    'technique': 'Lean 4 proof (attribute-fold invariants; emitter unfolding; modelled accessor semantics) + differential correspondence + accessor oracle',
+}
+CLAIMS['C17'] = {
+    'text': ("Theorems: doc_join/docs_line_for_line – the doc attributes emitted for an item are exactly the written lines in order (one per "
+             "`///` line, empty ones included); docs land on the struct, its fields, wrappers, vftable slots and inherited copies "
+             "(docs_on_*, function_doc_vis, inherited_copy_keeps_doc); padding fields, the vftable pointer and placeholder slots are private "
+             "and undocumented (padding_private, placeholder_private); type_flags/enum_flags – copyable gives Copy+Clone, cloneable Clone, "
+             "defaultable Default; packed_no_align. Correspondence plus a clause-table oracle over every emitted item."),
+    'note': COMMON_NOTE + "doc lines are single lines; enum variant docs are not part of the property.",
+    'technique': 'Lean 4 proof (string-split/intercalate lemma on List Char; fold invariants; emitter unfolding) + differential correspondence + clause oracle',
+}
 NOT_CLAIMED = {}
